@@ -248,8 +248,8 @@ def gen_oto(rng, tier):
     ops.append(["new", rng.random() < 0.15 and _creates(p), _pick_form(rng, OTO_FORMS, p), p])
     ninst = 1
     nops = rng.randint(2, 14 if tier == "quick" else 30)
-    # a quarter of the histories also hand unhashable objects (lists) to the operations: TypeError, nothing written
-    punh = 0.12 if rng.random() < 0.25 else 0.0
+    # three in ten histories also hand unhashable objects (lists) to the operations: TypeError, nothing written
+    punh = 0.14 if rng.random() < 0.3 else 0.0
 
     def U(t):
         return 900 + rng.randrange(3) if punh and rng.random() < punh else t
@@ -271,6 +271,8 @@ def gen_oto(rng, tier):
             ninst += 1
         elif r < 0.16 and ninst < 3:
             keys = [U(rng.choice(toks)) for _ in range(rng.randint(0, 4))]
+            if len(keys) >= 2 and rng.random() < 0.4:
+                keys.append(keys[0])          # a repeated key: the LAST write decides who keeps the value
             v = U(rng.choice(toks))
             ops.append(["fromkeys", keys, v, rng.choice(["list", "tuple", "iter", "gen"])])
             if not (keys and (_unh(keys) or _unh(v))):
